@@ -10,6 +10,12 @@ What get_sources() produces are ATTEMPTS, not necessarily distinct objects: an a
 object, the SAME object as an earlier attempt (a strategy that retries a source: each attempt has its own scripted
 outcome), a distinct object that compares EQUAL to another one (sources with value __eq__/__hash__, e.g. same
 user name), or an unhashable object (value __eq__ without __hash__).
+Source CLASS is a dimension of its own: besides the harness' own AuthSource subclass, attempts are instances of the stock
+source classes of paramiko.auth_strategy - NoneAuth, Password (outcome produced by the transport, or the password getter
+itself raises), InMemoryPrivateKey, OnDiskPrivateKey, user subclasses of Password / InMemoryPrivateKey, and one Password /
+InMemoryPrivateKey object that is produced several times - freely mixed with each other and with custom sources.  Their
+outcomes are scripted through a fake transport (auth_none / auth_password / auth_publickey keyed by the unique user name
+of each source object), so the same oracle applies to them.
 
 Oracle (k = index of the first succeeding source, or None):
   (a) authenticate(transport) calls source.authenticate(transport) for sources 0..k (all
@@ -29,7 +35,9 @@ LEVEL = "exploration"
 RULE = (
     "hypothesis-generated scripts of 0-8 auth sources, each returning a generated value or raising one of 10 exception types, "
     "fed through a generator-based get_sources with call/pull logging; an attempt is a fresh object, the same object as an earlier "
-    "attempt (own outcome per attempt), an equal-but-distinct object (value __eq__/__hash__) or an unhashable one; non-trivial = >= 2 sources of which at least one fails "
+    "attempt (own outcome per attempt), an equal-but-distinct object (value __eq__/__hash__) or an unhashable one, or an instance of a stock "
+    "paramiko.auth_strategy class (NoneAuth, Password [transport or getter raises], InMemoryPrivateKey, OnDiskPrivateKey, subclasses, one stock object "
+    "produced several times) driven through a scripted fake transport, all kinds mixed in one list; non-trivial = >= 2 sources of which at least one fails "
     "before the outcome is decided (first success preceded by a failure, or >= 2 failures and no success) ; distinct by SHA-1 of the script"
 )
 
@@ -51,7 +59,14 @@ source_spec = st.one_of(
 )
 # which object an attempt uses: None = a fresh plain source; "same:n" = shared object n of this call (attempted again);
 # "equal:n" = a fresh object with value equality (all "equal:n" of one n compare and hash equal); "unhash:n" = ditto, unhashable
-_obj = st.sampled_from([None] * 7 + ["same:0", "same:0", "same:1", "same:2", "equal:0", "equal:0", "equal:1", "unhash:0"])
+# stock classes of paramiko.auth_strategy: "<Class>" = a fresh instance; ":sub" = instance of a user subclass; ":getter" = the
+# Password's password_getter produces the scripted exception (a scripted success still comes from the transport);
+# ":same0" = one shared instance of the class that get_sources() produces again
+STOCK = [
+    "NoneAuth", "NoneAuth", "Password", "Password", "Password", "Password:getter", "Password:sub", "Password:same0",
+    "InMemoryPrivateKey", "InMemoryPrivateKey", "InMemoryPrivateKey:sub", "InMemoryPrivateKey:same0", "OnDiskPrivateKey", "OnDiskPrivateKey",
+]
+_obj = st.sampled_from([None] * 7 + ["same:0", "same:0", "same:1", "same:2", "equal:0", "equal:0", "equal:1", "unhash:0"] + STOCK)
 attempt = st.builds(lambda spec, obj: tuple(spec) + (obj,), source_spec, _obj)
 case_st = st.lists(attempt, max_size=8)
 
@@ -64,6 +79,25 @@ def _split(att):
 
 class _Custom(Exception):
     pass
+
+
+_PKEY = []
+
+
+def _pkey():
+    """A real PKey for the stock private-key sources (only carried along and repr()ed; a plain object if it cannot be loaded)."""
+    if not _PKEY:
+        try:
+            import os
+
+            from paramiko import Ed25519Key
+
+            from vlib import core
+
+            _PKEY.append(Ed25519Key.from_private_key_file(os.path.join(core.VERIF, "keys", "ed25519.key")))
+        except Exception:
+            _PKEY.append(object())
+    return _PKEY[0]
 
 
 def _make_exc(name, msg):
@@ -133,6 +167,22 @@ def _one_call(ctx, holder, script, jcase, call_no, ncalls):
         for o in set(x for x in tried if x and x.startswith(kind)):
             if kind == "unhash" or tried.count(o) >= 2:
                 classes.append(label)
+    kinds = set()
+    for i, o in enumerate(tried):
+        base = o.split(":")[0] if o else None
+        if base not in ("NoneAuth", "Password", "InMemoryPrivateKey", "OnDiskPrivateKey"):
+            kinds.add("custom")
+            continue
+        kinds.add(base)
+        classes.append("stock-source:" + base)
+        if o.endswith(":sub"):
+            classes.append("stock-source:user-subclass")
+        if o.endswith(":same0") and tried.count(o) >= 2:
+            classes.append("stock-source:same-object-attempted-again")
+        if o.endswith(":getter") and script[i][0] == "raise":
+            classes.append("stock-source:password-getter-raises")
+    if len(kinds) >= 2:
+        classes.append("source-classes-mixed:%d" % len(kinds))
     classes = sorted(set(classes))
     if call_no == 0:
         if ncalls > 1:
@@ -141,31 +191,58 @@ def _one_call(ctx, holder, script, jcase, call_no, ncalls):
         ctx.case(jcase, nontrivial, classes)
     jcase = dict(jcase, failing_call=call_no)
 
-    log = []
-    transport = object()
+    from paramiko import auth_strategy as AS
 
+    log = []
     outcomes = {}
+    # every source OBJECT has a record {"queue": [(attempt index, spec, raise-in-getter)], "n": calls so far}; the harness' own
+    # sources carry theirs, stock sources are found by their (unique) user name when they call the transport
+    recs = {}
+
+    def deliver(rec, on_transport, getter=False):
+        """Produce the next scripted outcome of one source object.  getter=True: called from a Password's
+        password_getter - only an outcome scripted to be raised there is consumed, otherwise a password is handed out."""
+        if rec is None or not rec["queue"]:
+            # a user name no produced stock source has: a call that matches no attempt (-> call-order violation)
+            log.append(("call", "unknown-user", on_transport))
+            return []
+        idx, spec, in_getter = rec["queue"][min(rec["n"], len(rec["queue"]) - 1)]
+        if getter and not (in_getter and spec[0] == "raise"):
+            return "pw-%d" % idx
+        rec["n"] += 1
+        log.append(("call", idx, on_transport))
+        if spec[0] == "ok":
+            outcomes[idx] = spec[1]
+            return spec[1]
+        outcomes[idx] = _make_exc(spec[1], spec[2])
+        raise outcomes[idx]
+
+    class FakeTransport:
+        """What the stock source classes talk to; the harness' own sources just compare its identity."""
+
+        def auth_none(self, username):
+            return deliver(recs.get(username), self is transport)
+
+        def auth_password(self, username, password, *a, **kw):
+            return deliver(recs.get(username), self is transport)
+
+        def auth_publickey(self, username, key, *a, **kw):
+            return deliver(recs.get(username), self is transport)
+
+    transport = FakeTransport()
 
     class Src(AuthSource):
         """One source object; it may stand for several attempts, each with its own scripted outcome."""
 
         def __init__(self, name):
             AuthSource.__init__(self, username=name)
-            self.queue = []  # [(attempt index, spec)] in the order this object is produced
-            self.n = 0
+            self.rec = {"queue": [], "n": 0}
 
         def __repr__(self):
             return "Src(%s)" % self.username
 
         def authenticate(self, tr):
-            idx, spec = self.queue[min(self.n, len(self.queue) - 1)]
-            self.n += 1
-            log.append(("call", idx, tr is transport))
-            if spec[0] == "ok":
-                outcomes[idx] = spec[1]
-                return spec[1]
-            outcomes[idx] = _make_exc(spec[1], spec[2])
-            raise outcomes[idx]
+            return deliver(self.rec, tr is transport)
 
     class EqSrc(Src):
         def __eq__(self, other):
@@ -180,6 +257,22 @@ def _one_call(ctx, holder, script, jcase, call_no, ncalls):
 
         # (defining __eq__ without __hash__ makes instances unhashable)
 
+    class MyPassword(AS.Password):
+        pass
+
+    class MyKey(AS.InMemoryPrivateKey):
+        pass
+
+    def stock(obj, name):
+        base, _, mod = obj.partition(":")
+        if base == "NoneAuth":
+            return AS.NoneAuth(name)
+        if base == "Password":
+            return (MyPassword if mod == "sub" else AS.Password)(name, lambda: deliver(recs.get(name), True, getter=True))
+        if base == "InMemoryPrivateKey":
+            return (MyKey if mod == "sub" else AS.InMemoryPrivateKey)(name, _pkey())
+        return AS.OnDiskPrivateKey(name, ("ssh-config", "python-config", "implicit-home")[len(name) % 3], "/nonexistent/%s" % name, _pkey())
+
     shared = {}
     sources = []
     for i, (spec, obj) in enumerate(zip(script, objs)):
@@ -189,9 +282,18 @@ def _one_call(ctx, holder, script, jcase, call_no, ncalls):
             src = shared.get(obj) or shared.setdefault(obj, Src(obj))
         elif obj.startswith("equal"):
             src = EqSrc(obj)
-        else:
+        elif obj.startswith("unhash"):
             src = UnhashableSrc(obj)
-        src.queue.append((i, spec))
+        else:
+            name = obj if obj.endswith(":same0") else "u%d" % i
+            src = shared.get(obj) if obj.endswith(":same0") else None
+            if src is None:
+                src = stock(obj, name)
+                recs[name] = {"queue": [], "n": 0}
+                if obj.endswith(":same0"):
+                    shared[obj] = src
+        rec = src.rec if isinstance(src, Src) else recs[src.username]
+        rec["queue"].append((i, spec, obj is not None and obj.endswith(":getter")))
         sources.append(src)
 
     class Strat(AuthStrategy):
